@@ -22,3 +22,7 @@ def run(ck, ctx):
     r3.run(ck, F, "C19.1", ENTRIES, discharge.TABLE, scope="C19", floor_sites=38, floor_bodies=70)
     ck.assume("unescaper 0.1.5 (read by hand: its single expect is guarded by a preceding from_str_radix check), std and logos are trusted")
     ck.assume("allocation failure on absurd length fields is out of scope (take_slice bounds every length by the input size before allocating)")
+    # the loader's slice arithmetic (copy_obj_block: `chunk.len() as u16`) is panic-free because no reader can produce a block
+    # of more than 65535 words: both readers take the block length through a u16 field
+    ck.include("C18", ctx, "C19.2", {"C18.3"}, "the text reader's .TEXT block length is parsed as u16 (a wider type lets a file describe a block the loader cannot copy)")
+    ck.include("C17", ctx, "C19.3", {"C17.1"}, "the binary reader's block length is a 2-byte field")
